@@ -60,6 +60,19 @@ class ReactorModel:
                     classes = classes - named
                 else:
                     classes = classes & named
+            elif isinstance(t, ast.Compare) and len(t.ops) == 1 and isinstance(t.ops[0], (ast.In, ast.NotIn)) and isinstance(t.comparators[0], (ast.Name, ast.Tuple, ast.List, ast.Set)):
+                # `pdu_cls in _SOME_PDUS` / `type(pdu) in (A, B)`: a module-level (or literal) collection of classes
+                coll = t.comparators[0]
+                if isinstance(coll, ast.Name):
+                    dm = self.repo.mod("dul")
+                    vals = dm.assigns.get(coll.id) or []
+                    coll = vals[0] if vals else None
+                if not isinstance(coll, (ast.Tuple, ast.List, ast.Set)):
+                    raise AnalysisError(f"dul._decode_pdu: pre-validation guarded by an unmodelled condition: {norm(g.test)}")
+                named = {dotted(n) for n in coll.elts}
+                in_body = any(x is c for s in g.body for x in ast.walk(s))
+                positive = isinstance(t.ops[0], ast.In) != neg
+                classes = classes & named if positive == in_body else classes - named
             else:
                 raise AnalysisError(f"dul._decode_pdu: pre-validation guarded by an unmodelled condition: {norm(g.test)}")
         return classes, c
